@@ -79,7 +79,74 @@ def oracle(e):
   return classify(e, a, b), '; '.join(G.diff_snapshots(a, b))
 
 
+FLATTEN = 'reflist-flatten-id-read'
+
+
+def c05_kinds(violation, entry):
+  """The oracle/monitor classified the violation into one of the kinds of the entry's root cause."""
+  return violation.get('kind') in entry.get('violation_kinds', [])
+
+
+MATCHERS = {'c05_kinds': c05_kinds}
+
+
+def flatten_sig(p):
+  """Monitor problem caused by usertypes.ReferenceList.do_convert reading `rec.id` of records that carry the bare
+  ReferenceRelation of their column (table.py _get_col_obj_subset -> col_obj.convert(list of RecordSets))."""
+  import relation
+  return (p[0] == 'relation-does-not-cover' and len(p) > 3 and p[2][0].col_id == 'id'
+          and type(p[3][1]) is relation.ReferenceRelation)
+
+
+def monitor_run(bundles):
+  """Replays bundles under the monitor; returns (engine, list of (step, problem))."""
+  depsenv.Monitor.install()
+  e, _ = G.new_doc()
+  m = depsenv.Monitor(e)
+  depsenv.Monitor.active = m
+  found = []
+  try:
+    for i, b in enumerate(bundles):
+      c05lib.apply_or_clean(e, copy.deepcopy(b))
+      for p in m.check(limit=50)[0]:
+        found.append((i, p))
+  finally:
+    depsenv.Monitor.active = None
+  return e, found
+
+
+def diagnose(history, bundle, a, b):
+  """Narrow kind for a scratch mismatch whose differing columns all sit on/behind a reader with flatten_sig."""
+  try:
+    e, found = monitor_run(history + [bundle])
+  except Exception:
+    return None
+  readers = {p[3][0] for (_i, p) in found if flatten_sig(p)}
+  if not readers:
+    return None
+  tainted = set(readers)
+  changed = True
+  while changed:
+    changed = False
+    for ed in e.dep_graph._all_edges:
+      if ed.in_node in tainted and ed.out_node not in tainted:
+        tainted.add(ed.out_node)
+        changed = True
+  bad = set()
+  for t in a:
+    if t not in b or a[t]['ids'] != b[t]['ids']:
+      return None
+    for c in a[t]['cols']:
+      if a[t]['cols'][c] != b[t]['cols'].get(c):
+        bad.add(depend.Node(t, c))
+  return 'stale:' + FLATTEN if bad and bad <= tainted else None
+
+
 def replay(ctx, w):
+  if w.get('mode') == 'monitor':
+    _e, found = monitor_run(w.get('history', []) + [w['bundle']])
+    hits = [p for (_i, p) in found if p[0] == w.get('problem')]
+    return ('monitor: ' + hits[0][1]) if hits else None
   e = c05lib.run_bundles(w.get('history', []))
   try:
     G.apply(e, copy.deepcopy(w['bundle']))
@@ -110,6 +177,16 @@ def shrink(history, bundle):
 def report(ctx, e, r, history, bundle):
   kind, what = r
   h, b = shrink(history, bundle) if len(ctx.violations) < 4 else (history, bundle)
+  if kind == 'incremental-differs-from-scratch':
+    try:
+      e2 = c05lib.run_bundles(h)
+      try:
+        G.apply(e2, copy.deepcopy(b))
+      except Exception:
+        G.clean(e2)
+      kind = diagnose(h, b, G.snapshot(e2), G.snapshot(histrun.scratch_values(e2))) or kind
+    except Exception:
+      pass
   ctx.violation(kind, what, {'history': copy.deepcopy(h), 'bundle': copy.deepcopy(b)})
 
 
@@ -208,6 +285,11 @@ def monitored_history(ctx, seed, nb, cases_per_hist):
                 sample={'seed': seed, 'bundle': bundle, 'cells': st.get('cells', 0), 'reads': st.get('reads', 0),
                         'lookups': st.get('lookups', 0)} if step == 4 else None)
       for p in problems[:3]:
+        if flatten_sig(p):
+          ctx.violation('monitor:' + FLATTEN, p[1],
+                        {'mode': 'monitor', 'problem': p[0], 'history': copy.deepcopy(history[:-1]),
+                         'bundle': copy.deepcopy(bundle)})
+          continue
         ctx.broken('monitor:' + p[0], '%s  [history seed %d step %d, last bundle %r]' % (p[1], seed, step, bundle))
         exploit(ctx, e, m, p, history)
       if step >= 2 and step % 3 == 2 and len(ctx._c05_cases) < ctx._c05_case_budget:
@@ -222,7 +304,7 @@ def correspond(ctx):
   ctx._c05_cases = []
   ctx._c05_case_budget = ctx.n(400, 6000)
   t0 = time.time()
-  budget = ctx.n(38, 1500)
+  budget = ctx.n(22, 1500)
   n = 0
   evals = 0
   for i in range(ctx.n(40, 1200)):
@@ -235,10 +317,11 @@ def correspond(ctx):
   ctx.extra['monitor_cell_evaluations'] = evals
   ctx.log('monitor: %d histories, %d cell evaluations, %d model cases' % (n, evals, len(ctx._c05_cases)))
   bad = ctx.run_cases('inval', ['Grist.Model.Deps', 'Grist.Model.DepsSpec', 'Grist.Model.DepsExec', 'Grist.Lib.DepsCases'],
-                      'run_icase', ctx._c05_cases, shard=150, timeout=600)
+                      'run_icase', ctx._c05_cases, shard=500, timeout=900)
   for i in bad[:5]:
     ctx.broken('correspondence:DepsExec.invalidate_deps differs from depend.Graph.invalidate_deps',
                ctx._c05_cases[i][:3000])
+  ctx.log('model tie: %d invalidate_deps cases evaluated in Coq, %d differ' % (len(ctx._c05_cases), len(bad)))
 
 
 # ---- search ---------------------------------------------------------------------------------------------
@@ -274,15 +357,29 @@ def search(ctx):
     ctx.bump('shared:' + k, v)
   for it in res['issues']:
     if it['prop'] == 'C05':
-      ctx.violation(it['kind'], it['what'], it['replay'])
+      kind = it['kind']
+      if kind == 'incremental-differs-from-scratch':
+        try:
+          h, b = it['replay'].get('history', []), it['replay']['bundle']
+          e2 = c05lib.run_bundles(h)
+          try:
+            G.apply(e2, copy.deepcopy(b))
+          except Exception:
+            G.clean(e2)
+          kind = diagnose(h, b, G.snapshot(e2), G.snapshot(histrun.scratch_values(e2))) or kind
+        except Exception:
+          pass
+      ctx.violation(kind, it['what'], it['replay'])
   ctx.count(('shared', ctx.seed), nontrivial=res.get('stats', {}).get('ok_bundles', 0) > 0, kind='oracle:shared-run')
+  ctx.log('shared run: %d C05 issues' % sum(1 for it in res['issues'] if it['prop'] == 'C05'))
   # 2. own stream
   t0 = time.time()
-  budget = ctx.n(22, 1500)
+  budget = ctx.n(14, 1500)
   for i in range(ctx.n(30, 1500)):
     if time.time() - t0 > budget or len(ctx.violations) > 10:
       break
     oracle_history(ctx, ctx.rng.randrange(1 << 30), ctx.n(8, 12), 'c05-stream')
+  ctx.log('own stream done: %d violations so far' % len(ctx.violations))
   # 3. programs cyclic through a lookup (reported under C05/C18 only)
   for i in range(ctx.n(6, 60)):
     r = random.Random(ctx.rng.randrange(1 << 30))
